@@ -339,6 +339,11 @@ fn gen_join(rng: &mut Rng, t: &Tab, u: &Tab) -> Query {
                 continue;
             }
         }
+        // the two id columns share their name: qualified references must still pick the right one
+        if rng.chance(1, 8) {
+            push_unique(&mut keys, if rng.chance(1, 2) { tc[0].e.clone() } else { uc[0].e.clone() });
+            continue;
+        }
         push_unique(&mut keys, rng.pick(&both).e.clone());
     }
     let distinct = rng.chance(1, 10);
@@ -983,7 +988,7 @@ fn sig_features(q: &Query) -> BTreeSet<String> {
         f.insert("multi_key".into());
     }
     let mut refs: Vec<E> = vec![];
-    let mut key_items = |items: &[Item], f: &mut BTreeSet<String>, refs: &mut Vec<E>| {
+    let key_items = |items: &[Item], f: &mut BTreeSet<String>, refs: &mut Vec<E>| {
         for k in ob {
             let desc = match k {
                 OrderKey::Ordinal(_, d) | OrderKey::Expr(_, d) => *d,
@@ -1066,7 +1071,7 @@ fn sig_features(q: &Query) -> BTreeSet<String> {
 /// columns (by table) the minimal query's items / keys / group columns refer to
 fn involved_columns(q: &Query) -> BTreeSet<String> {
     let mut refs = vec![];
-    let mut of_select = |s: &Select, refs: &mut Vec<E>| {
+    let of_select = |s: &Select, refs: &mut Vec<E>| {
         for it in &s.items {
             if let Item::Expr { e, .. } = it {
                 col_refs(e, refs);
@@ -1304,7 +1309,7 @@ pub fn run(a: &Args) -> i32 {
         &a.tier,
         a.seed,
         "exploration",
-        "generated tables t,u (id PK + 2..4 typed columns over tiny value domains, NULL strata 0/20/35/50%, 0..120 rows inserted in shuffled id order, with/without a 1- or 2-column secondary index created before or after the inserts) and generated queries of 8 families: multi-key ORDER BY (ASC/DESC, plain columns, arithmetic/COALESCE expressions by alias or repeated, ordinals; all keys projected), the same with LIMIT/OFFSET (0, 1, inside, at and beyond the end; OFFSET alone), DISTINCT on 1..4 columns with/without ORDER BY/LIMIT, GROUP BY ordered by aggregates, 2-table INNER/LEFT joins, UNION [ALL]/INTERSECT/EXCEPT ... ORDER BY ... LIMIT, ORDER BY the primary key, LIMIT without ORDER BY; optional WHERE. Each result is compared with the reference model: sorted (NULL lowest, DESC reversed, ties free), bag, window (cardinality + key multiset + rows drawn from the unwindowed bag), distinct_once. A failing query whose base (no DISTINCT/ORDER/LIMIT) is already wrong is dropped and counted; otherwise it is shrunk to a minimal failing statement; signature = assertion + minimal feature set + plan path + causal null_keys fact. Plus a direct check of the sort comparator Value::compare_for_sort (NULL less than non-NULL, transitive equivalence). distinct_nontrivial = distinct (database, statement) pairs whose model result has >= 2 different sort-key tuples, or whose window cuts rows, or where DISTINCT removes rows",
+        "generated tables t,u (id PK + 2..4 typed columns over tiny value domains, NULL strata 0/20/35/50%, 0..120 rows inserted in shuffled id order, with/without a 1- or 2-column secondary index created before or after the inserts) and generated queries of 8 families: multi-key ORDER BY (ASC/DESC, plain columns, arithmetic/COALESCE expressions referenced by alias or repeated, ordinals; every key projected), the same with LIMIT/OFFSET (0, 1, inside, at and beyond the end; OFFSET alone), DISTINCT on 1..4 columns with/without ORDER BY/LIMIT, GROUP BY ordered by aggregates, 2-table INNER/LEFT joins, UNION [ALL]/INTERSECT/EXCEPT ... ORDER BY ... LIMIT, ORDER BY the primary key, LIMIT without ORDER BY; optional WHERE. Each result is compared with the reference model: sorted (NULL lowest, DESC reversed, ties free), bag, window (cardinality + key multiset of the window + rows drawn from the unwindowed bag), distinct_once. EXPLAIN classifies the executing mechanism (sort / topk / index_order / pk_order / limit_only, suffixed by hash_join / index_nested_loop_join / setop) and cases are counted per mechanism. A failure whose base query (no DISTINCT/ORDER BY/LIMIT/OFFSET) is already wrong is dropped and counted (except for the self-contained assertions sorted and distinct_once); otherwise the statement is shrunk to a minimal failing one; signature = C15/<assertion>/<null_keys|any_keys: does the failure vanish on NULL-free twin tables>/<mechanism of the minimal statement>/<mechanism features of the minimal statement>. Plus a direct check of the sort comparator Value::compare_for_sort (NULL less than non-NULL, transitive equivalence). distinct_nontrivial = distinct (database, statement) pairs whose model result has >= 2 different sort-key tuples, or whose window cuts rows, or where DISTINCT removes rows",
     );
     comparator_check(&mut ctx);
     if cfg!(miri) {
@@ -1314,7 +1319,7 @@ pub fn run(a: &Args) -> i32 {
     }
     let mut rng = Rng::derive(a.seed, 15);
     let quick = ctx.quick();
-    let ndb = if quick { 120 } else { 2500 };
+    let ndb = if quick { 120 } else { 1500 };
     let per_db = 60;
     let scratch = Scratch::new("c15");
     let mut fam_counts: BTreeMap<String, u64> = BTreeMap::new();
@@ -1324,7 +1329,7 @@ pub fn run(a: &Args) -> i32 {
     let mut check_counts: BTreeMap<String, u64> = BTreeMap::new();
     let mut base_fail: BTreeMap<String, (u64, String)> = BTreeMap::new();
     let mut sig_counts: BTreeMap<String, (u64, String, String)> = BTreeMap::new();
-    let budget_s = if quick { 50.0 } else { 540.0 };
+    let budget_s = if quick { 45.0 } else { 420.0 };
     for dbi in 0..ndb {
         if ctx.elapsed() > budget_s {
             ctx.count("databases_skipped_time_budget", (ndb - dbi) as u64);
@@ -1347,7 +1352,8 @@ pub fn run(a: &Args) -> i32 {
         let mut tables = BTreeMap::new();
         tables.insert("t".to_string(), t.spec.to_mtable(t.rows.clone()));
         tables.insert("u".to_string(), u.spec.to_mtable(u.rows.clone()));
-        let mut db = match Db::create(&scratch.dir(&format!("db{}", dbi))) {
+        let db_dir = scratch.dir(&format!("db{}", dbi));
+        let mut db = match Db::create(&db_dir) {
             Ok(d) => d,
             Err(e) => {
                 ctx.inconclusive(&format!("cannot create database: {}", e));
@@ -1457,9 +1463,9 @@ pub fn run(a: &Args) -> i32 {
                 Outcome::Fail { fails, got, m } => {
                     let a0 = fails[0].0.clone();
                     // a wrong base query (no DISTINCT/ORDER BY/LIMIT/OFFSET) explains wrong values / counts / errors,
-                    // but not an unsorted result, a wrong key window or a repeated DISTINCT row
+                    // (and with them a wrong key window), but not an unsorted result or a repeated DISTINCT row
                     let base = base_of(&q);
-                    let attributable = !matches!(a0.as_str(), "sorted" | "window_keys" | "distinct_once");
+                    let attributable = !matches!(a0.as_str(), "sorted" | "distinct_once");
                     if has_c15_feature(&q) && attributable {
                         if let Outcome::Fail { fails: bf, .. } = run_case(&mut db, &tables, &base) {
                             let mut f = BTreeSet::new();
@@ -1528,6 +1534,8 @@ pub fn run(a: &Args) -> i32 {
                 }
             }
         }
+        drop(db);
+        let _ = std::fs::remove_dir_all(&db_dir);
     }
     ctx.extra.insert("judged_cases_by_family".into(), json!(fam_counts));
     ctx.extra.insert("judged_cases_by_plan_path".into(), json!(path_counts));
